@@ -10,6 +10,8 @@ from the current sources with `ast` and emitted as Lean data in Gen/Api.lean.
   designCtorArgs                           per Design* call in GHEManager.set_design: the argument expressions
   findDesignRequired                       the slots tested by `all([...])` in GHEManager.find_design
   findDesignCalls                          the calls made by find_design after the test, in source order
+  refusingSetterStores                     per GHEManager.set_* method with a `throw` parameter: the values it stores (a refused
+                                           call must store nothing: only enum constants / freshly built objects are stored)
   setterWrites                             per GHEManager.set_* method: the `self.<attr>` it assigns
   simulateTimesCompares                    comparisons on `self.times` inside GHE.simulate (the F7 guard)
   simulateTimesStores / simulateMethods    assignments to `self.times` in GHE.simulate, branch labels
@@ -234,6 +236,24 @@ def main(write, HEADER, parse, PKG):
                         attrs.append(d)
             setters.append((q.split(".")[1], attrs))
     out.append("def setterWrites : List (String × List String) := [" + ", ".join(f"({_s(n)}, {_slist(a)})" for n, a in setters) + "]")
+
+    # ------------------------------------------------------------ setters that can refuse their input: what they store, and in which order
+    # per method with a `throw` parameter: every `self.<attr> = <rhs>` (rhs unparsed) and whether it sits inside a `try`
+    refusing = []
+    for q, fn in _functions(manager):
+        if q.startswith("GHEManager.set_") and q.count(".") == 1 and any(a.arg == "throw" for a in fn.args.args + fn.args.kwonlyargs):
+            tries = [t for t in ast.walk(fn) if isinstance(t, ast.Try)]
+            stores = []
+            for n in _own_nodes(fn):
+                if isinstance(n, ast.Assign):
+                    for t in n.targets:
+                        d = _dotted(t)
+                        if d is not None and d.startswith("self."):
+                            in_try = any(n in list(ast.walk(t_)) for t_ in tries)
+                            rhs = _expr(n.value) if _dotted(n.value) is not None else (_dotted(n.value.func) + "(...)" if isinstance(n.value, ast.Call) and _dotted(n.value.func) else ast.unparse(n.value))
+                            stores.append(f"{d}={rhs}" + (" [try]" if in_try else ""))
+            refusing.append((q.split(".")[1], stores))
+    out.append("def refusingSetterStores : List (String × List String) := [" + ", ".join(f"({_s(n)}, {_slist(a)})" for n, a in refusing) + "]")
 
     # ------------------------------------------------------------ GHE.simulate / size / compute_g_functions
     ghe = parse("ground_heat_exchangers.py")
